@@ -86,6 +86,7 @@ class Ctx:
         self.t0 = time.time()
         self.budget_s = None  # soft budget for random workloads
         self.notes = []
+        self.xshard = {}  # key -> value that must agree across shards (different hash seeds)
 
     # ----- bookkeeping -------------------------------------------------- #
     @property
@@ -141,6 +142,7 @@ class Ctx:
             "reach": self.reach,
             "exhaustive": self.exhaustive,
             "notes": self.notes,
+            "xshard": self.xshard,
             "wall_s": self.elapsed(),
             "hashseed": os.environ.get("PYTHONHASHSEED"),
         }
@@ -331,6 +333,18 @@ def parent_main(a):
         notes.extend(r.get("notes", []))
         hashseeds.append(r.get("hashseed"))
 
+    # values that every shard computed for the same key must agree (cross-process /
+    # cross-hash-seed determinism)
+    xs = {}
+    for r in results:
+        for k, val in (r.get("xshard") or {}).items():
+            xs.setdefault(k, {}).setdefault(json.dumps(val, sort_keys=True, default=repr), []).append(r.get("shard"))
+    counters["xshard_keys_compared"] = sum(1 for k, v in xs.items() if sum(len(s) for s in v.values()) > 1)
+    for k, vals in xs.items():
+        if len(vals) > 1:
+            violations.append({"kind": "cross-shard-nondeterminism", "finding": None, "witness_id": None,
+                               "msg": f"{k}: shards with different hash seeds computed different values {list(vals.items())[:3]}",
+                               "witness": {"key": k, "values": {a: b for a, b in list(vals.items())[:4]}}, "shard": -1})
     known = load_known()
     known_hit = Counter()
     new_viol = []
